@@ -1948,6 +1948,17 @@ class Interp:
                 cv = self.load(st, cv.cell, cv.path)
             if isinstance(cv, Clo) and cv.path in self.crate.fns and any(cv.path.endswith(k) for k in self.inline_closures):
                 return self.call_closure_shim(st, fr, self.crate.fns[cv.path], args, dest, target, out)
+        if '::' in name and self.crate.fn(name) is None:
+            # a tuple-variant (or tuple-struct) constructor used as a function (`BaseRegLan::Inter` handed to a helper):
+            # the same aggregate the constructor expression builds
+            ap, vn = name.rsplit('::', 1)
+            a = self.crate.adts.get(ap)
+            if a is not None and a['kind'] == 'enum':
+                for v_ in a['variants']:
+                    if v_['name'] == vn and len(v_.get('fields', args)) == len(args):
+                        cell, path = self.place_loc(st, fr, dest)
+                        self.store(st, cell, path, Adt(ap, vn, v_['idx'], list(args), True))
+                        return self.goto(st, fr, target, out)
         local_fn = self.crate.fn(name) if c.get('local') else None
         fresh_helper = local_fn is not None and name not in KNOWN_FNS and name not in self.opaque   # extracted after the reference tree: see inline
         if local_fn is not None and (fresh_helper or not self.uninterpreted(name)):
